@@ -61,6 +61,7 @@ type FnCtx struct {
 	declared map[string]string
 	sorts    map[string]string // array name -> sort
 	defs     []string
+	defsQ    []string
 	assumes  []Assume
 	obligs   []*Oblig
 	stateN   int
@@ -182,6 +183,12 @@ func (fc *FnCtx) define(f string) {
 		return
 	}
 	fc.defs = append(fc.defs, f)
+}
+
+// defineQ records a quantified definition of a fresh symbol (a conservative extension: it cannot make the
+// assumptions unsatisfiable, so cover queries leave it out to stay decidable).
+func (fc *FnCtx) defineQ(f string) {
+	fc.defsQ = append(fc.defsQ, f)
 }
 
 func (fc *FnCtx) assume(f, why string) {
@@ -360,6 +367,15 @@ func (fc *FnCtx) strLit(s string) string {
 	return name
 }
 
+func (fc *FnCtx) typeID2(k string) string {
+	id, ok := fc.g.typeIDs[k]
+	if !ok {
+		id = len(fc.g.typeIDs) + 1
+		fc.g.typeIDs[k] = id
+	}
+	return fmt.Sprint(id)
+}
+
 func (fc *FnCtx) typeID(t types.Type) string {
 	k := typeKey(t)
 	id, ok := fc.g.typeIDs[k]
@@ -465,7 +481,8 @@ func (fc *FnCtx) embRef(st types.Type, f int, obj string) string {
 	key := "emb:" + t
 	if !fc.ground[key] {
 		fc.ground[key] = true
-		fc.define(sAnd(sEq(sx(sym(n+"!inv"), t), obj), sImp(sNot(sEq(obj, "0")), sx("<", t, "0"))))
+		fc.declareFun("embkind", "(Int) Int")
+		fc.define(sAnd(sEq(sx(sym(n+"!inv"), t), obj), sImp(sNot(sEq(obj, "0")), sAnd(sx("<", t, "0"), sEq(sx("embkind", t), fc.typeID2("emb:"+n))))))
 	}
 	return t
 }
@@ -487,7 +504,8 @@ func (fc *FnCtx) elemRef(et types.Type, base, idx string) string {
 	key := "elem:" + t
 	if !fc.ground[key] {
 		fc.ground[key] = true
-		fc.define(sAnd(sEq(sx(sym(n+"!b"), t), base), sEq(sx(sym(n+"!i"), t), idx), sx("<", t, "0")))
+		fc.declareFun("embkind", "(Int) Int")
+		fc.define(sAnd(sEq(sx(sym(n+"!b"), t), base), sEq(sx(sym(n+"!i"), t), idx), sx("<", t, "0"), sEq(sx("embkind", t), fc.typeID2("elem:"+n))))
 	}
 	return t
 }
